@@ -59,7 +59,7 @@ def task(arg):
     ulp4 = 4 * np.spacing(max(abs(lo), abs(hi), 1e-300))
     for ref, func in itertools.product(REFS, ("tanh", "exp")):
         grid = vgrid(ref)
-        for route in ("registered-scheme-scalar", "registered-scheme-array", "committee-forces", "committee-forces-sign-disagreement", "committee-energy", "no-committee-data-forces", "no-committee-data-energy", "reference-changed-after-construction"):
+        for route in ("registered-scheme-scalar", "registered-scheme-array", "committee-forces", "committee-forces-tiny", "committee-forces-sign-disagreement", "committee-energy", "no-committee-data-forces", "no-committee-data-energy", "reference-changed-after-construction"):
             scheme = "energy" if route in ("committee-energy", "no-committee-data-energy", "registered-scheme-scalar") else "forces"
             if route == "reference-changed-after-construction":
                 sim, atoms = make(lo, hi, ref * 7.0, "energy", func)
@@ -125,14 +125,14 @@ def task(arg):
                         V(f"C18/{func}/{route}/reference-variance-not-used", f"delta {js(d)} is not the midpoint {lo + span / 2}; {where0}")
                     continue
                 for v in grid:
-                    if route == "committee-forces":
+                    if route in ("committee-forces", "committee-forces-tiny"):
                         if not 0 <= v < 1:
                             continue
                         vv = np.full((3, 3), v)
                         vv[0, 0] = min(grid[1], 0.5)  # mixed values inside one array
                         vv[2, 1] = min(ref, 0.9) if ref < 1 else 0.5
                         atoms.get_potential_energy()
-                        comm = committee_forces(vv)
+                        comm = committee_forces(vv) * (1e-6 if route == "committee-forces-tiny" else 1.0)  # an almost relaxed structure
                         atoms.calc.results["forces_comm"] = comm
                         expect_v = np.std(comm, axis=0) / np.mean(np.abs(comm), axis=0)  # realised value
                     elif route == "committee-energy":
